@@ -93,6 +93,14 @@ func (p *prop) Run(line string) core.Outcome {
 				return runAdapt(line, t, f[0] == "madapt")
 			}
 		}
+	case "env":
+		if len(f) == 3 {
+			return runEnv(line, f[1], f[2])
+		}
+	case "var":
+		if len(f) == 3 {
+			return runVar(line, f[1], f[2])
+		}
 	case "hist":
 		if len(f) == 2 {
 			return runHist(line, f[1])
